@@ -2,7 +2,7 @@ CONSTANTS
   NObj = 3
   Ops <- OpsAll
   Caps <- CapsBig
-  Variant <- VPinned
+  Variant <- VFixed
   DtorMenu <- MenuAny
   Props <- PropsAll
 INIT ConfInit
